@@ -174,12 +174,13 @@ func DecodeFile(r io.Reader, options ...Option) (*File, error) {
 LoopBoxes:
 	for {
 		var box Box
+		var boxSize uint64 // size in the input; can differ from box.Size() (64-bit size field)
 		var err error
 		switch f.fileDecMode {
 		case DecModeLazyMdat:
-			box, err = DecodeBoxLazyMdat(boxStartPos, rs)
+			box, boxSize, err = decodeBoxLazyMdatWithSize(boxStartPos, rs)
 		case DecModeNormal:
-			box, err = DecodeBox(boxStartPos, r)
+			box, boxSize, err = decodeBoxWithSize(boxStartPos, r)
 		default:
 			return nil, fmt.Errorf("unknown DecFileMode=%d", f.fileDecMode)
 		}
@@ -189,7 +190,7 @@ LoopBoxes:
 		if err != nil {
 			return nil, err
 		}
-		boxType, boxSize := box.Type(), box.Size()
+		boxType := box.Type()
 		switch boxType {
 		case "mdat":
 			if f.isFragmented {
